@@ -7,7 +7,7 @@ from skepticoin.networking.threading import NetworkingThread
 from skepticoin.coinstate import CoinState
 from typing import Any, Callable, Dict, List, Tuple
 
-from skepticoin.params import SASHIMI_PER_COIN
+from skepticoin.params import SASHIMI_PER_COIN, MAX_FUTURE_BLOCK_TIME
 from skepticoin.consensus import (
     construct_block_pow_evidence_input,
     construct_pow_evidence_after_scrypt,
@@ -17,7 +17,7 @@ from skepticoin.signing import SECP256k1PublicKey
 from skepticoin.wallet import Wallet, save_wallet
 from skepticoin.utils import block_filename
 from skepticoin.cheating import MAX_KNOWN_HASH_HEIGHT
-from time import time
+from time import time, sleep
 from multiprocessing import Process, Queue
 from skepticoin.scripts.utils import (
     check_chain_dir,
@@ -215,6 +215,13 @@ class MinerWatcher:
         nonce: int = data
 
         self.coinstate, transactions = self.network_thread.local_peer.chain_manager.get_state()
+
+        # A block must be later than its parent but at most MAX_FUTURE_BLOCK_TIME ahead of the clock. Right after adopting
+        # a head that is itself at that limit no such timestamp exists yet (our own validation would refuse the block we
+        # find), so wait the second it takes for the clock to catch up.
+        while self.coinstate.head().timestamp + 1 > int(time()) + MAX_FUTURE_BLOCK_TIME:
+            sleep(0.1)
+
         increasing_time = max(int(time()), self.coinstate.head().timestamp + 1)
 
         summary, current_height, transactions = \
